@@ -330,3 +330,23 @@ package sugardb
 //@     invariant lk: holds(server.storeLock) && unlocked(server.keysWithExpiry.rwMutex) && unlocked(server.lfuCache.cache[database].Mutex) && unlocked(server.lruCache.cache[database].Mutex)
 //@     invariant forall k string :: has(server.store[database], k) ==> old(has(server.store[database], k)) && server.store[database][k] == old(server.store[database][k])
 //@     invariant forall d int :: d != database ==> server.store[d] == old(server.store[d])
+
+// ---- cache bookkeeping after an access --------------------------------------------------------------
+// updateKeysInCache first records the touched keys in the cache of the configured policy (loop 0), then starts
+// adjustMemoryUsage (contract above) in goroutines and waits for them. Decided here, as invariants of the bookkeeping loop:
+// it does not change the store, a key enters a cache only if it is stored, and under a volatile policy only if it has a
+// deadline (so volatile eviction can only ever pick keys with a deadline). The goroutines it waits for are not executed by the
+// verifier, so nothing is claimed about the state on return.
+//@ func (*SugarDB).updateKeysInCache props C08,C05
+//@   requires hasdb(ctx) && standalone(server) && server.store[dbof(ctx)] != nil && cachewf(server, dbof(ctx)) && nolocks()
+//@   requires server.lfuCache.cache[dbof(ctx)].Mutex != server.lruCache.cache[dbof(ctx)].Mutex
+//@   requires inv(server, maps) && inv(server, locks) && inv(server, dbs)
+//@   modifies *
+//@   loop 0
+//@     invariant wf: inv(server, maps) && inv(server, locks) && inv(server, dbs) && cachewf(server, database)
+//@     invariant db: database == dbof(ctx) && standalone(server) && server.store[database] == old(server.store[database]) && server.store[database] != nil && server.config.MaxMemory != 0
+//@     invariant {C05} lk: onlyheld(server.storeLock)
+//@     invariant {C08} store-untouched: forall k string :: (has(server.store[database], k) <==> old(has(server.store[database], k))) && server.store[database][k] == old(server.store[database][k])
+//@     invariant {C08} cached-are-stored-lfu: forall k string :: has(server.lfuCache.cache[database].keys, k) && !old(has(server.lfuCache.cache[database].keys, k)) ==> has(server.store[database], k) && (lower(server.config.EvictionPolicy) == "volatile-lfu" ==> server.store[database][k].ExpireAt != zerotime)
+//@     invariant {C08} cached-are-stored-lru: forall k string :: has(server.lruCache.cache[database].keys, k) && !old(has(server.lruCache.cache[database].keys, k)) ==> has(server.store[database], k) && (lower(server.config.EvictionPolicy) == "volatile-lru" ==> server.store[database][k].ExpireAt != zerotime)
+//@     invariant same: server.lfuCache.cache[database] == old(server.lfuCache.cache[database]) && server.lruCache.cache[database] == old(server.lruCache.cache[database]) && server.lfuCache.cache[database].keys == old(server.lfuCache.cache[database].keys) && server.lruCache.cache[database].keys == old(server.lruCache.cache[database].keys)
